@@ -31,6 +31,11 @@ def specs(tier, volume=1):
                 if quick and kind == "qmpt" and sh != "typical":
                     continue
                 out.append(("qutrit", sh, ph, kind, flag, m))
+            if kind != "povmt":       # tester POVMs with different outcome counts (over-complete sets)
+                out.append(("qubit", "typical", "mixed", kind, flag, 2))
+                out.append(("qubit", "random_over", "mixed", kind, flag, 2))
+                if kind == "qst" or not quick:
+                    out.append(("qutrit", "typical", "mixed", kind, flag, 2))
             two = [("typical", "typical")] if quick else [("typical", "typical"), ("random_over", "random_over"),
                                                             ("typical_over", "random_over")]
             for sh, ph in two:
@@ -57,8 +62,9 @@ class Setup:
             schedules = [base[i] for i in idx] + [base[idx[0]]]       # permuted, one repeated
         self.qt = ts.build(kind, self.states, self.povms, flag, m, schedules)
         self.schedules = self.qt._experiment.schedules
-        self.A = self.qt.calc_matA()
-        self.b = self.qt.calc_vecB()
+        # private copies: the harness must not share arrays with the tomography object it is judging
+        self.A = np.array(self.qt.calc_matA(), dtype=np.float64, copy=True)
+        self.b = np.array(self.qt.calc_vecB(), dtype=np.float64, copy=True)
         self.counts = [self.qt.num_outcomes(i) for i in range(len(self.schedules))]
 
     def trues(self):
@@ -129,6 +135,15 @@ def impl_seq(qt, seq):
         return ("err", err_kind(e))
 
 
+def finite(vs):
+    return all(np.all(np.isfinite(np.asarray(v, dtype=np.float64))) for v in vs)
+
+
+def raised(ctx, where, tag, e, what, rep):
+    """an unexpected exception from the real code on a property-relevant input is a violation with that input"""
+    ctx.violate(f"C09/{where}/{tag}/raises-{type(e).__name__}", f"{type(e).__name__}: {str(e)[:200]} — {what}", rep)
+
+
 def mat_text(M):
     return qlist(np.asarray(M, dtype=np.float64).flatten())
 
@@ -140,61 +155,82 @@ def correspondence(ctx):
     lim_mirror = 3.0e5 if ctx.quick else 3.0e6      # n·n·m above which the right-associated product is run
     lim_exact = 33 if ctx.quick else 82             # exact rational solve up to this many variables
     lim_rows = 400 if ctx.quick else 1300
+    def one(spec, sched):
+        S = Setup(ctx.seed, spec, sched)
+        A, b = S.A, S.b
+        mm, n = A.shape
+        if mm > lim_rows:
+            ctx.count("corr skipped (too large for the exact model in this tier)")
+            return
+        cond = np.linalg.cond(A)
+        if cond > COND_MAX:
+            ctx.count("corr skipped cond>1e3")
+            return
+        rank = int(np.linalg.matrix_rank(A))
+        G = np.linalg.inv(A.T @ A)
+        trues = S.trues()
+        seq, labels = [], []
+        for i, t in enumerate(trues):
+            d = ts.born_reference(S.kind, S.rhos, S.pmats, S.schedules, t)
+            seq.append(with_counts(d, [1 + 7 * i] * len(d)))
+            labels.append("exact-" + t.label)
+        d0 = [x[1] for x in seq[0]]
+        seq.append(with_counts(S.sampled(d0, 50), [50] * len(d0)))
+        labels.append("sampled")
+        seq.append(with_counts(S.adversarial(1.0), list(range(len(d0)))))
+        labels.append("adversarial")
+        seq.append(with_counts(S.adversarial(100.0), [0] * len(d0)))
+        labels.append("adversarial-100")
+        impl = impl_seq(S.qt, seq)
+        rep = {"kind": "setup", "seed": ctx.seed, "spec": list(spec), "sched": sched}
+        tag = f"{S.kind}/flag={S.flag}"
+        if impl[0] == "ok" and not finite(impl[1]):
+            bad = [labels[i] for i, v in enumerate(impl[1]) if not finite([v])]
+            ctx.violate(f"C09/calc_estimate_sequence/{tag}/non-finite",
+                        f"{spec}: non-finite estimate for datasets {bad} (counts attached: "
+                        f"{[[c for c, _ in seq[labels.index(x)]][:4] for x in bad]})", rep)
+            return
+        again = impl_seq(S.qt, seq)        # the same tomography object, estimated a second time
+        if impl[0] == "ok" and (again[0] != "ok" or not all(np.array_equal(a_, b_) for a_, b_ in zip(impl[1], again[1]))):
+            ctx.violate(f"C09/calc_estimate_sequence/{tag}/second-estimation-differs",
+                        f"{spec}: estimating the same data twice with the same tomography object gives different results "
+                        f"(second: {again[0]})", rep)
+            return
+        ctx.count(f"corr {spec[0]} {S.kind} flag={S.flag} testers={spec[1]}/{spec[2]} sched={sched}")
+        Atxt, btxt = mat_text(A), qlist(b)
+        i_full = drv.ask("fullrank", mm, n, rank)
+        pend.append(("fullrank", spec, str(bool(S.qt.is_fullrank_matA())).lower(), i_full))
+        if n * n * mm <= lim_mirror:
+            i_est = drv.ask("estseq", mm, n, rank, mat_text(G), Atxt, btxt, seq_text(seq))
+            pend.append(("estseq", (spec, sched, labels), impl, i_est))
+        else:
+            fs = [np.concatenate([d for _, d in ds]) for ds in seq]
+            i_est = drv.ask("estfast", mm, n, mat_text(G), Atxt, btxt, vecs_text(fs))
+            pend.append(("estfast", (spec, sched, labels), impl, i_est))
+        if impl[0] == "ok":
+            fs = [np.concatenate([d for _, d in ds]) for ds in seq]
+            scale = max(1.0, max(np.abs(f).max() for f in fs)) * max(1.0, np.linalg.norm(A, 2) ** 2)
+            tol = 1e-9 * scale
+            i_cert = drv.ask("cert", mm, n, Atxt, btxt, q(tol), vecs_text(fs), vecs_text(impl[1]))
+            pend.append(("cert", (spec, sched, labels, tol), ",".join(["true"] * len(fs)), i_cert))
+            if n <= lim_exact:
+                pick = [0, 4] if ctx.quick else [0, 1, 2, 3, 4]
+                i_ex = drv.ask("lsqexact", mm, n, Atxt, btxt, vecs_text([fs[k] for k in pick]))
+                pend.append(("lsqexact", (spec, sched, labels), ("ok", [impl[1][k] for k in pick]), i_ex))
+        for lab in labels:
+            ctx.case(("corr", spec, sched, lab), nontrivial=not lab.startswith("exact"),
+                     sample={"op": "estseq/cert", "spec": list(spec), "shape": [mm, n], "data": lab,
+                             "cond": round(float(cond), 2)})
+
     for spec in specs(ctx.tier):
         for sched in ("all", "perm") if spec[0] == "qubit" and spec[1] == "typical" else ("all",):
-            S = Setup(ctx.seed, spec, sched)
-            A, b = S.A, S.b
-            mm, n = A.shape
-            if mm > lim_rows:
-                ctx.count("corr skipped (too large for the exact model in this tier)")
-                continue
-            cond = np.linalg.cond(A)
-            if cond > COND_MAX:
-                ctx.count("corr skipped cond>1e3")
-                continue
-            rank = int(np.linalg.matrix_rank(A))
-            G = np.linalg.inv(A.T @ A)
-            trues = S.trues()
-            seq, labels = [], []
-            for i, t in enumerate(trues):
-                d = ts.born_reference(S.kind, S.rhos, S.pmats, S.schedules, t)
-                seq.append(with_counts(d, [1 + 7 * i] * len(d)))
-                labels.append("exact-" + t.label)
-            d0 = [x[1] for x in seq[0]]
-            seq.append(with_counts(S.sampled(d0, 50), [50] * len(d0)))
-            labels.append("sampled")
-            seq.append(with_counts(S.adversarial(1.0), list(range(len(d0)))))
-            labels.append("adversarial")
-            seq.append(with_counts(S.adversarial(100.0), [0] * len(d0)))
-            labels.append("adversarial-100")
-            impl = impl_seq(S.qt, seq)
-            ctx.count(f"corr {spec[0]} {S.kind} flag={S.flag} testers={spec[1]}/{spec[2]} sched={sched}")
-            Atxt, btxt = mat_text(A), qlist(b)
-            i_full = drv.ask("fullrank", mm, n, rank)
-            pend.append(("fullrank", spec, str(bool(S.qt.is_fullrank_matA())).lower(), i_full))
-            if n * n * mm <= lim_mirror:
-                i_est = drv.ask("estseq", mm, n, rank, mat_text(G), Atxt, btxt, seq_text(seq))
-                pend.append(("estseq", (spec, sched, labels), impl, i_est))
-            else:
-                fs = [np.concatenate([d for _, d in ds]) for ds in seq]
-                i_est = drv.ask("estfast", mm, n, mat_text(G), Atxt, btxt, vecs_text(fs))
-                pend.append(("estfast", (spec, sched, labels), impl, i_est))
-            if impl[0] == "ok":
-                fs = [np.concatenate([d for _, d in ds]) for ds in seq]
-                scale = max(1.0, max(np.abs(f).max() for f in fs)) * max(1.0, np.linalg.norm(A, 2) ** 2)
-                tol = 1e-9 * scale
-                i_cert = drv.ask("cert", mm, n, Atxt, btxt, q(tol), vecs_text(fs), vecs_text(impl[1]))
-                pend.append(("cert", (spec, sched, labels, tol), ",".join(["true"] * len(fs)), i_cert))
-                if n <= lim_exact:
-                    pick = [0, 4] if ctx.quick else [0, 1, 2, 3, 4]
-                    i_ex = drv.ask("lsqexact", mm, n, Atxt, btxt, vecs_text([fs[k] for k in pick]))
-                    pend.append(("lsqexact", (spec, sched, labels), ("ok", [impl[1][k] for k in pick]), i_ex))
-            for lab in labels:
-                ctx.case(("corr", spec, sched, lab), nontrivial=not lab.startswith("exact"),
-                         sample={"op": "estseq/cert", "spec": list(spec), "shape": [mm, n], "data": lab,
-                                 "cond": round(float(cond), 2)})
+            try:
+                one(spec, sched)
+            except Exception as e:  # noqa
+                raised(ctx, "correspondence", f"{spec[3]}/flag={spec[4]}", e, f"while preparing / estimating {spec} sched={sched}",
+                       {"kind": "setup", "seed": ctx.seed, "spec": list(spec), "sched": sched})
     # --- error branches and plumbing on a small set-up (1 qubit QST)
-    for flag in (True, False):
+    def branches(flag):
         S = Setup(ctx.seed, ("qubit", "typical", "typical", "qst", flag, 2))
         A, b = S.A, S.b
         mm, n = A.shape
@@ -208,12 +244,17 @@ def correspondence(ctx):
             ("short-data", [with_counts(d[:2], [1, 1])]),
             ("long-data", [with_counts(d + d, [1] * 6)]),
             ("length-1-broadcast", [[(1, np.array([0.5]))]]),
-            ("ragged", [with_counts([d[0], np.array([0.25, 0.25, 0.5]), d[2]], [1, 1, 1])]),
+            ("mixed-lengths-wrong-total", [with_counts([d[0], np.array([0.25, 0.25, 0.5]), d[2]], [1, 1, 1])]),
+            ("mixed-lengths-right-total", [with_counts([np.concatenate([d[0], d[1][:1]]), d[1][1:], d[2]], [1, 1, 1])]),
             ("second-fails", [with_counts(d, [1, 2, 3]), with_counts(d[:1], [1])]),
             ("one-array-of-6", [[(5, np.concatenate(d))]]),
         ]
         for name, seq in cases:
             impl = impl_seq(S.qt, seq)
+            if impl[0] == "ok" and not finite(impl[1]):
+                ctx.violate(f"C09/calc_estimate_sequence/qst/flag={flag}/non-finite", f"branch {name}: non-finite estimate",
+                            {"kind": "setup", "seed": ctx.seed, "spec": list(S.spec), "sched": "all"})
+                continue
             i = drv.ask("estseq", mm, n, rank, mat_text(G), mat_text(A), qlist(b), seq_text(seq))
             pend.append(("estseq", (S.spec, name), impl, i))
             ctx.count("corr error/plumbing branches")
@@ -222,18 +263,22 @@ def correspondence(ctx):
         r = LinearEstimator().calc_estimate(S.qt, with_counts(d, [3, 3, 3]))
         i = drv.ask("est", mm, n, rank, mat_text(G), mat_text(A), qlist(b), seq_text([with_counts(d, [3, 3, 3])]))
         pend.append(("est", (S.spec, "single"), ("ok", [r.estimated_var]), i))
+
+    for flag in (True, False):
+        try:
+            branches(flag)
+        except Exception as e:  # noqa
+            raised(ctx, "correspondence", f"qst/flag={flag}", e, "error-branch / guard section", {"kind": "guard", "seed": ctx.seed})
     # --- the guard on informationally incomplete tester sets
-    for kind, flag, names_s, names_p in [("qst", True, None, ["x", "z"]), ("qst", False, None, ["x", "z"]),
-                                         ("qst", True, None, ["z"]), ("povmt", True, ["x0", "z0", "z1"], None),
-                                         ("qpt", False, ["x0", "y0", "z0"], ["x", "y", "z"]),
-                                         ("qst", False, None, ["z"])]:
+    def guard_case(kind, flag, names_s, names_p):
         c_sys = ts.make_csys("qubit")
         sts = ts.generate_tester_states(c_sys, names_s) if names_s else []
         pvs = ts.generate_tester_povms(c_sys, names_p) if names_p else []
         qt = ts.build(kind, sts, pvs, flag, 2)
-        A, b = qt.calc_matA(), qt.calc_vecB()
+        A, b = np.array(qt.calc_matA(), copy=True), np.array(qt.calc_vecB(), copy=True)
         mm, n = A.shape
         rank = int(np.linalg.matrix_rank(A))
+        full_before = str(bool(qt.is_fullrank_matA())).lower()
         f = np.full(mm, 0.5)
         k, cnts = 0, [qt.num_outcomes(i) for i in range(qt.num_schedules)]
         ds = []
@@ -241,19 +286,28 @@ def correspondence(ctx):
             ds.append((1, f[k:k + c])); k += c
         impl = impl_seq(qt, [ds])
         i_full = drv.ask("fullrank", mm, n, rank)
-        pend.append(("fullrank", (kind, flag, names_s, names_p), str(bool(qt.is_fullrank_matA())).lower(), i_full))
+        pend.append(("fullrank", (kind, flag, names_s, names_p), full_before, i_full))
         ctx.count("corr guard on incomplete testers")
         ctx.case(("corr-guard", kind, flag, tuple(names_s or ()), tuple(names_p or ())),
                  sample={"op": "estseq", "guard": impl, "shape": [mm, n], "rank": rank})
         if rank == min(mm, n):
             # wide A of full row rank: the coded guard (`min(shape) == rank`) lets it through; numpy's inv of the
             # singular AᵀA raises or returns garbage — there is no `G` satisfying the contract to hand to the
-            # model, so only the guard verdict is compared (the oracle judges the answer, finding D13)
+            # model, so only the guard verdict is compared
             ctx.count("corr guard passes a wide matrix (impl: %s)" % (impl[1] if impl[0] == "err" else "answers"))
-            continue
+            return
         Gd = np.zeros((n, n))
         i = drv.ask("estseq", mm, n, rank, mat_text(Gd), mat_text(A), qlist(b), seq_text([ds]))
         pend.append(("estseq", (kind, flag, "incomplete"), impl, i))
+
+    for kind, flag, names_s, names_p in [("qst", True, None, ["x", "z"]), ("qst", False, None, ["x", "z"]),
+                                         ("qst", True, None, ["z"]), ("povmt", True, ["x0", "z0", "z1"], None),
+                                         ("qpt", False, ["x0", "y0", "z0"], ["x", "y", "z"]),
+                                         ("qst", False, None, ["z"])]:
+        try:
+            guard_case(kind, flag, names_s, names_p)
+        except Exception as e:  # noqa
+            raised(ctx, "correspondence", f"{kind}/flag={flag}", e, "error-branch / guard section", {"kind": "guard", "seed": ctx.seed})
     out = drv.run()
     for op, inp, impl, i in pend:
         ctx.corr_ops.add(op)
@@ -285,7 +339,18 @@ def tol_of(S):
 
 
 def check_setup(ctx, spec, sched="all"):
-    """the property on one tomography set-up, on the real code, against independent references"""
+    """the property on one tomography set-up; nothing raised by the real code escapes: it becomes a violation"""
+    try:
+        _check_setup(ctx, spec, sched)
+    except Exception as e:  # noqa
+        raised(ctx, "oracle", f"{spec[3]}/flag={spec[4]}", e, f"on {spec} sched={sched}",
+               {"kind": "setup", "seed": ctx.seed, "spec": list(spec), "sched": sched})
+
+
+def _check_setup(ctx, spec, sched="all"):
+    """the property on one tomography set-up, on the real code, against independent references.
+    ONE tomography object is used for all estimations of the set-up (exact recovery is therefore also checked on the
+    2nd, 3rd … estimation with the same object), and the forward model is re-read at the end."""
     S = Setup(ctx.seed, spec, sched)
     qt, A, b = S.qt, S.A, S.b
     rep = {"kind": "setup", "seed": ctx.seed, "spec": list(spec), "sched": sched}
@@ -309,7 +374,14 @@ def check_setup(ctx, spec, sched="all"):
             v = r.estimated_var
             o = r.estimated_qoperation
         except Exception as e:  # noqa
-            ctx.violate(f"C09/calc_estimate/{tag}/exact/raises", f"{type(e).__name__}: {e} on {spec} true={t.label}", rep)
+            if isinstance(e, ValueError) and "must match exactly" in str(e) and len(set(S.counts)) > 1:
+                ctx.violate(KNOWN_MIXED, f"{spec}: outcome counts {S.counts[:6]}…: np.vstack raises ValueError on the exact "
+                            f"data of a physical object (true={t.label})", rep)
+            else:
+                ctx.violate(f"C09/calc_estimate/{tag}/exact/raises-{type(e).__name__}", f"{type(e).__name__}: {e} on {spec} true={t.label}", rep)
+            return
+        if not finite([v]):
+            ctx.violate(f"C09/calc_estimate/{tag}/exact/non-finite", f"{spec} true={t.label}: non-finite estimate from exact data", rep)
             return
         ev = float(np.abs(v - t.var(S.flag)).max())
         eo = float(np.abs(o.to_stacked_vector() - t.obj.to_stacked_vector()).max())
@@ -387,10 +459,29 @@ def check_setup(ctx, spec, sched="all"):
     for cnts in ([0] * len(d), [10 ** 6] * len(d), list(range(1, len(d) + 1)), [int(x) for x in S.g.integers(1, 10 ** 4, len(d))]):
         ctx.case(("oracle-counts", spec, sched, tuple(cnts)), sample={"check": "counts ignored", "counts": cnts[:4]})
         v = est.calc_estimate(qt, with_counts(d, cnts)).estimated_var
+        if not finite([v]):
+            ctx.violate(f"C09/calc_estimate/{tag}/non-finite",
+                        f"{spec}: non-finite estimate when the attached sample counts are {cnts[:4]}… (finite with counts 1)", rep)
+            return
         if not np.array_equal(v, base):
             ctx.violate(f"C09/calc_estimate/{tag}/depends-on-counts",
                         f"{spec}: estimate changes by {np.abs(v - base).max():.3e} when only the sample counts change to {cnts[:4]}…", rep)
             return
+    # the estimations must have left the tomography object's forward model alone, and a further estimation with the
+    # same object must still recover the first true object from its exact data
+    A2, b2 = qt.calc_matA(), qt.calc_vecB()
+    if A2.shape != A.shape or not np.array_equal(A2, A) or not np.array_equal(b2, b):
+        ctx.violate(f"C09/calc_estimate/{tag}/forward-model-changed",
+                    f"{spec}: calc_matA()/calc_vecB() of the tomography object differ after estimating with it "
+                    f"(max change {np.abs(A2 - A).max() if A2.shape == A.shape else 'shape'})", rep)
+        return
+    v = est.calc_estimate(qt, with_counts(exact[0], [1] * len(exact[0]))).estimated_var
+    ctx.case(("oracle-reuse", spec, sched), sample={"check": "same tomography object, later estimation", "spec": list(spec)})
+    if not finite([v]) or not np.abs(v - trues[0].var(S.flag)).max() <= tol:
+        ctx.violate(f"C09/calc_estimate/{tag}/reused-object/exact-recovery",
+                    f"{spec}: after several estimations with the same tomography object the exact data of true={trues[0].label} "
+                    f"are no longer inverted (err {np.abs(v - trues[0].var(S.flag)).max():.3e})", rep)
+        return
 
 
 INCOMPLETE = [("qst", None, ["x", "z"]), ("qst", None, ["x", "y"]), ("povmt", ["x0", "y0", "z0"], None),
@@ -408,7 +499,7 @@ def check_guard(ctx):
             sts = ts.generate_tester_states(c_sys, ns) if ns else []
             pvs = ts.generate_tester_povms(c_sys, npv) if npv else []
             qt = ts.build(kind, sts, pvs, flag, 2)
-            A, b = qt.calc_matA(), qt.calc_vecB()
+            A, b = np.array(qt.calc_matA(), copy=True), np.array(qt.calc_vecB(), copy=True)
             f = np.full(A.shape[0], 0.5)
             f[::2] = 0.25
             f[1::2] = 0.75
@@ -424,6 +515,9 @@ def check_guard(ctx):
                 v = LinearEstimator().calc_estimate(qt, ds).estimated_var
             except Exception:  # noqa  rejected
                 continue
+            if not finite([v]):
+                ctx.notes.append(f"observation (outside the quantifier): {kind} flag={flag} testers {ns}/{npv}: non-finite answer")
+                continue
             g_ = A.T @ (A @ v + b - f)
             if not wide:
                 ctx.notes.append(f"observation (outside the quantifier): {kind} flag={flag} testers {ns}/{npv}, tall matA of rank "
@@ -437,19 +531,22 @@ def check_guard(ctx):
 
 def check_mixed(ctx):
     """over-complete tester set whose POVMs have different outcome counts (qubit QST / QPT)"""
-    for kind in ("qst", "qpt"):
+    for kind in ("qst", "qpt", "qmpt"):
         for flag in (True, False):
-            spec = ("qubit", "typical", "mixed", kind, flag, 2)
-            g = ctx.npgen("mixed-" + kind + str(flag))
-            c_sys = ts.make_csys("qubit")
-            sts, rhos = ts.tester_states(g, c_sys, "qubit", "typical")
-            pvs, pm = ts.tester_povms(g, c_sys, "qubit", "mixed")
-            qt = ts.build(kind, sts, pvs, flag, 2)
-            t = ts.true_objects(g, c_sys, kind, 2, classes=("interior",), flag=flag)[0]
-            d = ts.born_reference(kind, rhos, pm, qt._experiment.schedules, t)
+            rep = {"kind": "mixed", "seed": ctx.seed, "which": [kind, flag]}
+            try:
+                g = ctx.npgen("mixed-" + kind + str(flag))
+                c_sys = ts.make_csys("qubit")
+                sts, rhos = ts.tester_states(g, c_sys, "qubit", "typical")
+                pvs, pm = ts.tester_povms(g, c_sys, "qubit", "mixed")
+                qt = ts.build(kind, sts, pvs, flag, 2)
+                t = ts.true_objects(g, c_sys, kind, 2, classes=("interior",), flag=flag)[0]
+                d = ts.born_reference(kind, rhos, pm, qt._experiment.schedules, t)
+            except Exception as e:  # noqa
+                raised(ctx, "oracle-mixed", f"{kind}/flag={flag}", e, "building the mixed-outcome-count set-up", rep)
+                continue
             ctx.case(("oracle-mixed", kind, flag), sample={"check": "mixed outcome counts", "counts": [len(x) for x in d][:6]})
             ctx.count("oracle mixed outcome counts")
-            rep = {"kind": "mixed", "seed": ctx.seed, "which": [kind, flag]}
             try:
                 v = LinearEstimator().calc_estimate(qt, with_counts(d, [1] * len(d))).estimated_var
             except ValueError as e:
